@@ -154,6 +154,13 @@ class Oct(object):
             i = 2 * self.ix[v] + (0 if a > 0 else 1)
             j = 2 * self.ix[w] + (1 if b > 0 else 0)
             return self.m[i][j]
+        from math import gcd
+        g = 0
+        for _, a in it:
+            g = gcd(g, abs(a))
+        if g > 1:
+            r = self.bound_terms({v: a // g for v, a in it})
+            return r * g if r != INF else INF
         # pair up where possible, otherwise sum of interval bounds; take the best pairing of the first with any other
         best = 0
         for v, a in it:
@@ -902,6 +909,18 @@ def _sub_obligations(an, e, states, out, where):
             _sub_obligations(an, a, states, out, where)
 
 
+def _ptr_parts(e):
+    """array + a - b ...  ->  (array node, [(+1, a), (-1, b), ...]); (None, None) when e is not array arithmetic"""
+    offs = []
+    sign = 1
+    while isinstance(e, dict) and e.get('k') == 'bin' and e.get('op') in ('+', '-'):
+        offs.append((1 if e['op'] == '+' else -1, e['r']))
+        e = e['l']
+    if isinstance(e, dict) and isinstance(e.get('arr'), int):
+        return e, offs
+    return None, None
+
+
 COPY_FNS = {'memcpy': (0, 1, 2), 'memmove': (0, 1, 2), 'memset': (0, None, 2)}
 
 
@@ -923,16 +942,40 @@ def obligations(an):
                 if pi is None or pi >= len(ev['args']):
                     continue
                 a = ev['args'][pi]
-                base, off = a, None
-                if a.get('k') == 'bin' and a.get('op') == '+':
-                    base, off = a['l'], a['r']
-                if isinstance(base.get('arr'), int) and base.get('elsz'):
-                    total = base['arr'] * base['elsz']
-                    olo, ohi = an.range_of(off, states) if off is not None else (0, 0)
-                    nlo, nhi = an.range_of(ev['args'][n], states)
-                    ok = olo is not None and olo >= 0 and ohi * base['elsz'] + nhi <= total
-                    out.append({'kind': 'blockcopy', 'where': s, 'expr': '%s(%s)' % (ev['callee'], ', '.join(sx(x) for x in ev['args'])), 'array': sx(base),
-                                'extent': total, 'lo': olo, 'hi': (ohi * base['elsz'] + nhi) if ohi not in (None, INF) and nhi not in (None, INF) else INF, 'ok': ok})
+                base, offs = _ptr_parts(a)
+                if base is None or not (isinstance(base.get('arr'), int) and base.get('elsz')):
+                    continue
+                total = base['arr'] * base['elsz']
+                elsz = base['elsz']
+                worst_hi, worst_lo = -INF, INF
+                for o in states:
+                    # offset (in elements) and length (in bytes) as one linear form, so that `8 - n` elements plus `n * size`
+                    # bytes cancel exactly
+                    lin_off = Lin({}, 0)
+                    okl = True
+                    for sign, part in offs:
+                        l = an.lin(part, o)
+                        if l is None:
+                            okl = False
+                            break
+                        lin_off = lin_off.add(l, sign)
+                    ln = an.lin(ev['args'][n], o) if okl else None
+                    if okl and ln is not None:
+                        tot = lin_off.scale(elsz).add(ln)
+                        hi = o.bound_terms(tot.t) + tot.c
+                        lo = -(o.bound_terms({v: -c for v, c in lin_off.t.items()})) + lin_off.c
+                    else:
+                        olo, ohi = (0, 0)
+                        for sign, part in offs:
+                            a_, b_ = an.interval(part, o)
+                            olo, ohi = (olo + a_, ohi + b_) if sign > 0 else (olo - b_, ohi - a_)
+                        nlo, nhi = an.interval(ev['args'][n], o)
+                        hi = ohi * elsz + nhi if INF not in (ohi, nhi) else INF
+                        lo = olo
+                    worst_hi, worst_lo = max(worst_hi, hi), min(worst_lo, lo)
+                ok = worst_lo >= 0 and worst_hi <= total
+                out.append({'kind': 'blockcopy', 'where': s, 'expr': '%s(%s)' % (ev['callee'], ', '.join(sx(x) for x in ev['args'])), 'array': sx(base),
+                            'extent': total, 'lo': worst_lo, 'hi': worst_hi, 'ok': ok})
     for bid, blk in fn.blocks.items():
         c = (blk.get('term') or {}).get('cond')
         if isinstance(c, dict) and an.at_term(bid):
